@@ -8,23 +8,20 @@ tree model (only the `Op`/`Out` vocabulary and the register file are shared).
 namespace MdsVerif.Spec.SortedSet
 variable {α : Type} (cmp : α → α → Ordering)
 
-/-- insert `k` unless an equivalent key is present; reports whether it was absent -/
-def add (k : α) : List α → List α × Bool
+/-- insert `k` in order; when an equivalent key is present keep it (`rep = false`) or put `k` in
+its place (`rep = true`); reports whether `k`'s class was absent -/
+def ins (rep : Bool) (k : α) : List α → List α × Bool
   | [] => ([k], true)
   | x :: xs =>
     match cmp k x with
     | .lt => (k :: x :: xs, true)
-    | .eq => (x :: xs, false)
-    | .gt => let p := add k xs; (x :: p.1, p.2)
+    | .eq => ((if rep then k else x) :: xs, false)
+    | .gt => let p := ins rep k xs; (x :: p.1, p.2)
 
-/-- insert `k`, or put it in the place of the equivalent key; reports whether it was absent -/
-def replace (k : α) : List α → List α × Bool
-  | [] => ([k], true)
-  | x :: xs =>
-    match cmp k x with
-    | .lt => (k :: x :: xs, true)
-    | .eq => (k :: xs, false)
-    | .gt => let p := replace k xs; (x :: p.1, p.2)
+/-- `Add`: insert `k` unless an equivalent key is present; reports whether it was absent -/
+def add (k : α) (l : List α) : List α × Bool := ins cmp false k l
+/-- `Replace`: insert `k`, or put it in the place of the equivalent key; reports whether it was absent -/
+def replace (k : α) (l : List α) : List α × Bool := ins cmp true k l
 
 /-- delete the key equivalent to `k`; reports whether there was one -/
 def remove (k : α) : List α → List α × Bool
